@@ -32,6 +32,8 @@ pub struct Snap {
 // declares DoubleEndedIterator / ExactSizeIterator / FusedIterator is discovered at compile
 // time from the real crate, so the harness follows whatever the crate declares.
 
+pub type AdOut = Vec<(String, Result<(usize, usize), String>)>;
+
 pub struct Caps<I>(pub I);
 
 pub trait BackYes<T> {
@@ -193,7 +195,9 @@ pub trait QueueLike: Sized + Clone + std::fmt::Debug + 'static {
     fn q_into_sorted_iter(self) -> Box<dyn DynIter<OwnPair>>;
 
     /// std adaptor matrix over the non-mutable iterators: returns (label, Result<len, panic msg>)
-    fn q_adaptor_lens(&self, j: usize, out: &mut Vec<(String, usize, usize)>);
+    fn q_adaptor_lens(&self, j: usize, out: &mut AdOut);
+    /// same for the mutable iterator (C09)
+    fn q_adaptor_lens_mut(&self, j: usize, out: &mut AdOut);
 }
 
 macro_rules! common_impl {
@@ -246,14 +250,18 @@ macro_rules! common_impl {
         fn q_iter_ref<'a>(&'a self) -> Box<dyn DynIter<RefPair<'a>> + 'a> { Box::new(DIter(Caps(<&'a $ty<H> as IntoIterator>::into_iter(self)))) }
         fn q_drain<'a>(&'a mut self) -> Box<dyn DynIter<OwnPair> + 'a> { Box::new(DDrain(Caps(<$ty<H>>::drain(self)))) }
         fn q_into_iter(self) -> Box<dyn DynIter<OwnPair>> { Box::new(DIntoIter(Caps(<$ty<H> as IntoIterator>::into_iter(self)))) }
-        fn q_adaptor_lens(&self, j: usize, out: &mut Vec<(String, usize, usize)>) {
+        fn q_adaptor_lens(&self, j: usize, out: &mut AdOut) {
             // every entry: (label, reported len(), number of elements really yielded)
             macro_rules! ad {
                 ($label:expr, $mk:expr) => {{
-                    let a = $mk;
-                    let l = ExactSizeIterator::len(&a);
-                    let c = a.count();
-                    out.push((format!("{}(j={})", $label, j), l, c));
+                    let r = std::panic::catch_unwind(std::panic::AssertUnwindSafe(|| {
+                        let a = $mk;
+                        let l = ExactSizeIterator::len(&a);
+                        let c = a.count();
+                        (l, c)
+                    }));
+                    let r = r.map_err(|e| $crate::ops::panic_text(&e));
+                    out.push((format!("{}(j={}).len()", $label, j), r));
                 }};
             }
             ad!("iter.take", self.iter().take(j));
@@ -288,28 +296,37 @@ macro_rules! common_impl {
             }
             self.kind_adaptor_lens(j, out);
         }
+        fn q_adaptor_lens_mut(&self, j: usize, out: &mut AdOut) {
+            self.kind_adaptor_lens_mut(j, out);
+        }
     };
 }
 
 /// kind-specific part of the adaptor matrix
 pub trait KindAdaptors {
-    fn kind_adaptor_lens(&self, j: usize, out: &mut Vec<(String, usize, usize)>);
+    fn kind_adaptor_lens(&self, j: usize, out: &mut AdOut);
+    fn kind_adaptor_lens_mut(&self, j: usize, out: &mut AdOut);
 }
 
 impl<H: HB> KindAdaptors for PQ<H> {
-    fn kind_adaptor_lens(&self, _j: usize, _out: &mut Vec<(String, usize, usize)>) {
+    fn kind_adaptor_lens(&self, _j: usize, _out: &mut AdOut) {
         // PriorityQueue::into_sorted_iter and iter_mut declare neither ExactSizeIterator nor
         // DoubleEndedIterator: nothing to compose.
     }
+    fn kind_adaptor_lens_mut(&self, _j: usize, _out: &mut AdOut) {}
 }
 impl<H: HB> KindAdaptors for DPQ<H> {
-    fn kind_adaptor_lens(&self, j: usize, out: &mut Vec<(String, usize, usize)>) {
-        macro_rules! ad {
+    fn kind_adaptor_lens(&self, j: usize, out: &mut AdOut) {
+            macro_rules! ad {
             ($label:expr, $mk:expr) => {{
-                let a = $mk;
-                let l = ExactSizeIterator::len(&a);
-                let c = a.count();
-                out.push((format!("{}(j={})", $label, j), l, c));
+                let r = std::panic::catch_unwind(std::panic::AssertUnwindSafe(|| {
+                    let a = $mk;
+                    let l = ExactSizeIterator::len(&a);
+                    let c = a.count();
+                    (l, c)
+                }));
+                let r = r.map_err(|e| $crate::ops::panic_text(&e));
+                out.push((format!("{}(j={}).len()", $label, j), r));
             }};
         }
         ad!("sorted.take", self.clone().into_sorted_iter().take(j));
@@ -319,6 +336,20 @@ impl<H: HB> KindAdaptors for DPQ<H> {
         ad!("sorted.rev", self.clone().into_sorted_iter().rev());
         ad!("sorted.enumerate", self.clone().into_sorted_iter().enumerate());
         ad!("sorted.rev.take", self.clone().into_sorted_iter().rev().take(j));
+    }
+    fn kind_adaptor_lens_mut(&self, j: usize, out: &mut AdOut) {
+            macro_rules! ad {
+            ($label:expr, $mk:expr) => {{
+                let r = std::panic::catch_unwind(std::panic::AssertUnwindSafe(|| {
+                    let a = $mk;
+                    let l = ExactSizeIterator::len(&a);
+                    let c = a.count();
+                    (l, c)
+                }));
+                let r = r.map_err(|e| $crate::ops::panic_text(&e));
+                out.push((format!("{}(j={}).len()", $label, j), r));
+            }};
+        }
         {
             let mut c = self.clone();
             ad!("iter_mut.take", c.iter_mut().take(j));
